@@ -1,6 +1,13 @@
 """Single table of claimed checks; bin/mkmanifest renders MANIFEST.json from it."""
 
 CHECKS = {
+    "C19": dict(
+        level="exploration",
+        technique="TLA+ spec MSFfi (the call convention as a stack machine: Push / CallLib / PrintAll / Void; MSFfiMachine explores it step by step with invariants ArgumentsUnchanged, NoInstructionAfterFailure, MatchesExpected); TLA+ generator GenFfi enumerates argument vectors x call kinds x an optional second call; each case is hand-assembled text bytecode -> transpile -> execute against the probe cdylib that reports the slice it received; TLC judge CheckFfi",
+        text="Exhaustive small-scope exploration of argument vectors (all kinds, length 0-3/4, boundary values) for every return form and fault, including two-call sequences (stale operands, cached library/symbol), replayed on the real interpreter and judged on stdout, exit status and error text.",
+        note="The probe library is built from harness/ffi_probe against /repo/bytecode with the binary's flags; Debug formatting of Primitive is the observation channel; vectors of length 5-6 only in thorough over two values.",
+        design="5/C19",
+    ),
     "C14": dict(
         level="exploration",
         technique="TLA+ specification of every string/number built-in (CheckBuiltin over MSStr = string functions on character sequences and MSNum = exact integers / IEEE doubles incl. correctly rounded sqrt, decimal and radix parsing, float->int truncation, floor/ceil/round/ipart/fpart); TLA+ generator GenBuiltin enumerates method x boundary receivers/arguments; every call executed by the real binary with operands in variables; typed result (kind + exact value) judged by TLC",
